@@ -61,11 +61,36 @@ def calls_with_env(fn, pred, stmts=None, env=None):
     def visit(st, cond, e):
         # only the statement's own expressions, not nested statement bodies
         for node in own_exprs(st):
+            parent = {}
+            for anc in ast.walk(node):
+                for child in ast.iter_child_nodes(anc):
+                    parent[id(child)] = anc
             for sub in ast.walk(node):
                 if isinstance(sub, ast.Call) and pred(sub):
-                    out.append((sub, st, cond, dict(e)))
+                    out.append((sub, st, flow.AND(cond, _short_circuit_condition(sub, parent, e)), dict(e)))
     flow.Reach(fn, visit).walk(fn.body if stmts is None else stmts, True, dict(env or {}))
     return out
+
+
+def _short_circuit_condition(node, parent, env):
+    """Condition under which `node` is evaluated when its statement runs: operands before it in an `and` are true / in an `or` false,
+    the test of a conditional expression selects its arm.  (Comprehension filters and lambdas are not modelled: the condition stays True.)"""
+    cond = True
+    child = node
+    while id(child) in parent:
+        anc = parent[id(child)]
+        if isinstance(anc, ast.BoolOp):
+            idx = next((i for i, v in enumerate(anc.values) if v is child), 0)
+            for v in anc.values[:idx]:
+                f = flow.to_formula(v, env)
+                cond = flow.AND(cond, f if isinstance(anc.op, ast.And) else flow.NOT(f))
+        elif isinstance(anc, ast.IfExp):
+            if anc.body is child:
+                cond = flow.AND(cond, flow.to_formula(anc.test, env))
+            elif anc.orelse is child:
+                cond = flow.AND(cond, flow.NOT(flow.to_formula(anc.test, env)))
+        child = anc
+    return cond
 
 
 def own_exprs(st):
